@@ -163,6 +163,7 @@ func init() {
 	add("c14-jqlit-number", "C14.jqlit", jqJQ, "$v.term.number | tonumber", "$v.term.number", "from_jq|number")
 	add("c14-jqlit-true", "C14.jqlit", jqJQ, "elif . == \"TermTypeTrue\" then true", "elif . == \"TermTypeTrue\" then false", "literal:true")
 	add("c14-jqlit-keys", "C14.jqlit", jqJQ, "                  elif .key then .key\n", "", "object-keys")
+	add("c14-jqlit-emptystr", "C14.jqlit", jqJQ, "else $v.term.str.str // \"\"", "else $v.term.str.str", "string-text")
 	add("c14-jqlit-negative", "C14.jqlit", jqJQ, "then -(.term.number | tonumber)", "then (.term.number | tonumber)", "from_jq|negative")
 	// C14.pair
 	add("c14-pair-default-order", "C14.pair", encJQ, "def to_base64($opts): _to_base64({encoding: \"std\"} + $opts);", "def to_base64($opts): _to_base64($opts + {encoding: \"std\"});", "overrides the caller")
